@@ -220,10 +220,14 @@ def patterned_cases(rng, tier):
 def run_patterned_case(c):
     name, n, m, spec = c["semiring"], c["n"], c["m"], c["spec"]
     S = U.semiring(name)
-    if spec["style"] == "diag": a = make_diagonal(name, n, spec["diag"])
-    else: a = make_patterned(name, n, spec["rows"], spec["cols"], spec["sub"])
-    bsub = spec["bsub"]
-    b = make_patterned_vec(name, n, spec["brows"], [r[0] for r in bsub] if m == 0 else bsub, m)
+    if spec["style"] == "prod":
+        a = prod_tensor(name, [spec["rows"], spec["cols"]], spec["phys"])
+        b = prod_tensor(name, [spec["bpat"]], spec["bphys"], extra=(m,) if m else ())
+    else:
+        if spec["style"] == "diag": a = make_diagonal(name, n, spec["diag"])
+        else: a = make_patterned(name, n, spec["rows"], spec["cols"], spec["sub"])
+        bsub = spec["bsub"]
+        b = make_patterned_vec(name, n, spec["brows"], [r[0] for r in bsub] if m == 0 else bsub, m)
     # the dense reading of the arguments must be what the case says (harness self-check)
     ad = a.to_dense(); bd = b.to_dense()
     exp_a = U.tensor(name, c["A"]); exp_b = U.tensor(name, [r[0] for r in c["B"]] if m == 0 else c["B"])
@@ -243,8 +247,171 @@ def run_patterned_case(c):
 def f18_class(c):
     """the a*e = 0 exit: no column of a's pattern support meets b's pattern support"""
     spec = c["spec"]
-    if spec["style"] == "diag": return False
+    if spec["style"] in ("diag", "prod"): return False
     return not (set(spec["cols"]) & set(spec["brows"]))
+
+
+# ----------------------------------------------------------------------------- product/sum-typed patterns
+# Index type 2 x 2 x ... x 2 (d bits); every component of a row/column/rhs pattern is the
+# constant bit 0 (inl = SumAxis(0, unit, 1)), the constant bit 1 (inr) or a physical axis of
+# size 2 named by a letter.  Rows (1, A, B) against columns (A, B, C) make every application of
+# `a` shift the support, so the support of sum_n A^n b needs several closure steps of
+# PatternedTensor.solve's axis loop (e := b + a*e) to stabilise.
+
+def prod_vars(*pats):
+    vs = []
+    for pat in pats:
+        for c in pat:
+            if c not in ("0", "1") and c not in vs: vs.append(c)
+    return vs
+
+def prod_index(pat, vs, asg):
+    i = 0
+    for c in pat: i = 2 * i + (int(c) if c in ("0", "1") else asg[vs.index(c)])
+    return i
+
+def phys_at(phys, asg):
+    for k in asg: phys = phys[k]
+    return phys
+
+def prod_dense_matrix(name, rowpat, colpat, phys):
+    """the dense n x n matrix denoted by the pattern (n = 2^d)"""
+    z = U.zero_of(name); n = 2 ** len(rowpat)
+    vs = prod_vars(rowpat, colpat)
+    M = [[z] * n for _ in range(n)]
+    for asg in itertools.product(range(2), repeat=len(vs)):
+        M[prod_index(rowpat, vs, asg)][prod_index(colpat, vs, asg)] = phys_at(phys, asg)
+    return M
+
+def prod_dense_rhs(name, bpat, bphys, m):
+    z = U.zero_of(name); n = 2 ** len(bpat)
+    vs = prod_vars(bpat)
+    Bm = [[z] * max(m, 1) for _ in range(n)]
+    for asg in itertools.product(range(2), repeat=len(vs)):
+        v = phys_at(bphys, asg)
+        Bm[prod_index(bpat, vs, asg)] = list(v) if m else [v]
+    return Bm
+
+def prod_axes(pats, extra=()):
+    """virtual axes (one product axis per pattern) over shared fresh physical axes"""
+    from fggs.indices import PhysicalAxis, SumAxis, productAxis, unitAxis
+    vs = prod_vars(*pats)
+    ax = {v: PhysicalAxis(2) for v in vs}
+    bit = {"0": SumAxis(0, unitAxis, 1), "1": SumAxis(1, unitAxis, 0)}
+    vaxes = tuple(productAxis(tuple(bit[c] if c in bit else ax[c] for c in pat)) for pat in pats)
+    ex = tuple(PhysicalAxis(k) for k in extra)
+    return tuple(ax[v] for v in vs) + ex, vaxes + ex
+
+def prod_tensor(name, pats, phys, extra=()):
+    from fggs.indices import PatternedTensor
+    paxes, vaxes = prod_axes(pats, extra)
+    return PatternedTensor(U.tensor(name, phys), paxes, vaxes, U.semiring(name).from_int(0).item())
+
+def gen_phys(rng, name, nv, style, tail=0):
+    """nested 2 x ... x 2 (x tail) list of mostly non-zero abstract values"""
+    if name == "bool": g = [True, True, True, False]
+    elif name in ("real", "log"):
+        g = [F(1, 4), F(1, 2), F(1, 4), F(1, 2), F(0)] if style == "small" else [F(1, 4), F(1, 2), F(1), F(2), F(0), INF]
+    else:
+        g = [F(-1), F(-2), F(-3), F(-1), NINF] if style == "small" else [F(-2), F(-1), F(0), F(1), NINF, INF]
+    def rec(k):
+        if k == 0: return [rng.choice(g) for _ in range(tail)] if tail else rng.choice(g)
+        return [rec(k - 1), rec(k - 1)]
+    return rec(nv)
+
+def closure_depth(name, A, Bm):
+    """number of applications of A needed before the support of b + A b + ... stabilises"""
+    z = U.zero_of(name); n = len(A)
+    S = {i for i in range(n) if any(v != z for v in Bm[i])}
+    depth = 0
+    while True:
+        T = S | {i for i in range(n) for j in S if A[i][j] != z}
+        if T == S: return depth
+        S = T; depth += 1
+
+def prod_patterns(rng, d):
+    """(rowpat, colpat): shift families first, then arbitrary typed patterns"""
+    V = ["A", "B", "C", "D"]
+    fam = rng.choice(["shift-r", "shift-r", "shift-l", "shift-l", "rot", "random"])
+    c = rng.choice(["0", "1"])
+    if fam == "shift-r":      # rows (c, A, B), cols (A, B, C)
+        cols = V[:d]; rows = [c] + V[:d - 1]
+    elif fam == "shift-l":    # rows (B, C, c), cols (A, B, C)
+        cols = V[:d]; rows = V[1:d] + [c]
+    elif fam == "rot":        # rows (c, A, B'), cols (A, B, c'): a constant on both sides
+        cols = V[:d - 1] + [rng.choice(["0", "1"])]; rows = [c] + V[:d - 1]
+    else:
+        pool = ["0", "1"] + V[:d]
+        rows = [rng.choice(pool) for _ in range(d)]; cols = [rng.choice(pool) for _ in range(d)]
+    return fam, rows, cols
+
+def prod_cases(rng, tier):
+    cases = []
+    per = 30 if tier == "quick" else 300
+    for name in SEMIRINGS:
+        for t in range(per):
+            d = rng.choice([2, 3, 3, 3])
+            fam, rows, cols = prod_patterns(rng, d)
+            style = rng.choice(["small", "small", "grid"])
+            phys = gen_phys(rng, name, len(prod_vars(rows, cols)), style)
+            bkind = rng.choice(["cell", "cell", "cell", "row", "two"])
+            if bkind == "cell": bpat = [rng.choice(["0", "1"]) for _ in range(d)]
+            elif bkind == "row":
+                bpat = [rng.choice(["0", "1"]) for _ in range(d)]; bpat[rng.randrange(d)] = "A"
+            else:
+                bpat = [rng.choice(["0", "1", "A", "B"]) for _ in range(d)]
+            m = rng.choice([0, 0, 0, 2])
+            A = prod_dense_matrix(name, rows, cols, phys)
+            if fam != "random" and rng.random() < 0.7:      # the constant cell from which the closure is longest
+                bpat = max((["0"] * d, ["1"] * d),
+                           key=lambda bp: closure_depth(name, A, prod_dense_rhs(name, bp, U.CARRIER[name].one, 0)))
+            bphys = gen_phys(rng, name, len(prod_vars(bpat)), "small", tail=m)
+            Bm = prod_dense_rhs(name, bpat, bphys, m)
+            cases.append(dict(kind="patterned", semiring=name, cls="pt-prod-" + fam, n=2 ** d, m=m, A=A, B=Bm,
+                              depth=closure_depth(name, A, Bm),
+                              spec=dict(style="prod", rows=rows, cols=cols, phys=phys, bpat=bpat, bphys=bphys)))
+    return cases
+
+def multi_prod_cases(rng, tier):
+    """multi_solve with a product-patterned diagonal block (and patterned right-hand side)"""
+    cases = []
+    per = 12 if tier == "quick" else 150
+    for name in SEMIRINGS:
+        for t in range(per):
+            d = rng.choice([2, 3])
+            n = 2 ** d
+            fam, rows, cols = prod_patterns(rng, d)
+            if fam == "random": fam, rows, cols = "shift-r", ["1"] + ["A", "B", "C"][:d - 1], ["A", "B", "C"][:d]
+            phys = gen_phys(rng, name, len(prod_vars(rows, cols)), "small")
+            tr = rng.random() < 0.5
+            prow, pcol = (cols, rows) if rng.random() < 0.5 else (rows, cols)
+            M = prod_dense_matrix(name, prow, pcol, phys)
+            Meff = [list(r) for r in zip(*M)] if tr else M      # the matrix of the system that is solved
+            bpat = max((["0"] * d, ["1"] * d),
+                       key=lambda bp: closure_depth(name, Meff, prod_dense_rhs(name, bp, U.CARRIER[name].one, 0)))
+            if rng.random() < 0.25: bpat[rng.randrange(d)] = "A"
+            bphys = gen_phys(rng, name, len(prod_vars(bpat)), "small")
+            nb = rng.choice([1, 2, 2])
+            shapes = [[n]] + [[rng.choice([1, 2])] for _ in range(nb - 1)]
+            ablocks = [((0, 0), M)]; apat = {"0": dict(rows=prow, cols=pcol, phys=phys)}
+            if nb == 2:
+                k = shapes[1][0]
+                if rng.random() < 0.7: ablocks.append(((1, 0), U.gen_block(rng, name, k, n, "small")))
+                if rng.random() < 0.5: ablocks.append(((0, 1), U.gen_block(rng, name, n, k, "small")))
+                if rng.random() < 0.5: ablocks.append(((1, 1), U.gen_block(rng, name, k, k, "small")))
+                order = list(range(len(ablocks))); rng.shuffle(order)
+                pos = order.index(0)
+                ablocks = [ablocks[i] for i in order]; apat = {str(pos): apat["0"]}
+            bvec = [row[0] for row in prod_dense_rhs(name, bpat, bphys, 0)]
+            bblocks = [(0, bvec)]; bpatd = {"0": dict(bpat=bpat, bphys=bphys)}
+            if nb == 2 and rng.random() < 0.5:
+                bblocks.append((1, U.gen_block(rng, name, 1, shapes[1][0], "dyadic")[0]))
+            Aeff = [list(r) for r in zip(*M)] if tr else M
+            cases.append(dict(kind="multi", semiring=name, cls="%dblock-prod-%s%s" % (nb, fam, "-T" if tr else ""),
+                              shapes=shapes, a=ablocks, b=bblocks, transpose=tr, keykind=rng.choice([0, 1, 2]),
+                              style="small", apat=apat, bpat=bpatd,
+                              depth=closure_depth(name, Aeff, [[v] for v in bvec])))
+    return cases
 
 # ----------------------------------------------------------------------------- multi
 
@@ -314,7 +481,15 @@ def build_multi(c, jshapes=None):
     shapes = {ko(i): torch.Size(s) for i, s in enumerate(c["shapes"])}
     jsh = shapes if jshapes is None else {ko(i): torch.Size(s) for i, s in enumerate(jshapes)}
     a = MultiTensor((shapes, jsh), S)
-    for (x, y), blk in c["a"]:
+    apat = c.get("apat") or {}
+    for i, ((x, y), blk) in enumerate(c["a"]):
+        if str(i) in apat:
+            sp = apat[str(i)]
+            pt = prod_tensor(name, [sp["rows"], sp["cols"]], sp["phys"])
+            if not torch.equal(pt.to_dense(), U.tensor(name, blk)):
+                raise RuntimeError("harness: patterned block does not denote the intended dense block")
+            a[ko(x), ko(y)] = pt
+            continue
         t = U.tensor(name, blk, shape=tuple(shapes[ko(x)]) + tuple(jsh[ko(y)]))
         a[ko(x), ko(y)] = PatternedTensor(t)
     return S, shapes, jsh, a, ko
@@ -339,7 +514,14 @@ def run_multi_solve(c):
     name = c["semiring"]
     S, shapes, _, a, ko = build_multi(c)
     b = MultiTensor((shapes,), S)
-    for x, vec in c["b"]:
+    bpat = c.get("bpat") or {}
+    for i, (x, vec) in enumerate(c["b"]):
+        if str(i) in bpat:
+            pt = prod_tensor(name, [bpat[str(i)]["bpat"]], bpat[str(i)]["bphys"])
+            if not torch.equal(pt.to_dense(), U.tensor(name, vec)):
+                raise RuntimeError("harness: patterned rhs block does not denote the intended dense block")
+            b[ko(x)] = pt
+            continue
         b[ko(x)] = PatternedTensor(U.tensor(name, vec, shape=tuple(shapes[ko(x)])))
     sa, sb = snap_multi(a), snap_multi(b)
     rec = {}
@@ -550,6 +732,7 @@ def run(tier, seed):
     rng = random.Random(seed)
     violations = []
     hist = {}
+    depth_hist = {}
     evals = 0
     seen_nontrivial = set()
     samples = []
@@ -557,13 +740,16 @@ def run(tier, seed):
     def count(c):
         k = "%s/%s/%s" % (c["kind"], c["semiring"], c["cls"])
         hist[k] = hist.get(k, 0) + 1
+        if "depth" in c:
+            dk = "%s/closure-depth-%d" % (c["kind"], min(c["depth"], 4))
+            depth_hist[dk] = depth_hist.get(dk, 0) + 1
         if nontrivial(c): seen_nontrivial.add(repr(sorted((k2, repr(v)) for k2, v in c.items())))
 
     # ---- (i) dense + (iii) patterned: same check functions
     batches = {"ereal": [], "trop": [], "bool": []}
     lus = []
     f18_hits = 0
-    for c in dense_cases(rng, tier) + patterned_cases(rng, tier):
+    for c in dense_cases(rng, tier) + patterned_cases(rng, tier) + prod_cases(rng, tier):
         name = c["semiring"]; call = "Semiring.solve" if c["kind"] == "dense" else "PatternedTensor.solve"
         try:
             r = run_dense_case(name, c["n"], c["m"], c["A"], c["B"]) if c["kind"] == "dense" else run_patterned_case(c)
@@ -592,7 +778,7 @@ def run(tier, seed):
     mb = {"ereal": [], "trop": [], "bool": []}
     orders = []
     order_sets_ok = True
-    for c in multi_cases(rng, tier):
+    for c in multi_cases(rng, tier) + multi_prod_cases(rng, tier):
         name = c["semiring"]; call = "fggs.multi.multi_solve"
         try:
             r = run_multi_solve(c)
@@ -670,8 +856,8 @@ def run(tier, seed):
                 violations.append(vv)
 
     cov = dict(evaluations=evals, distinct_nontrivial=len(seen_nontrivial),
-               rule="dense/patterned: n <= 4, entries from the exact grids (Real/Log: 0, 1/4, 1/2, 1, 2, inf; Viterbi: -inf, -3..2, +inf; Bool), classes forcing spectral radius < 1 (row sums < 1 / negative weights), = 1 (row-stochastic, zero-weight cycles), > 1, infinite entries, zero rows, triangular; vector and matrix right-hand sides. multi: all 16 x 4 presence patterns of a 2-block system x transpose, sampled 3- and 4-block systems, block shapes (), (2,), (2,2), (3,), three key types, order recorded from the implementation. non-trivial = dense: n >= 2 with a non-zero off-diagonal entry; multi: >= 2 present blocks; distinct by full case content",
-               samples=samples[:6], histogram=hist, kernel_reevaluated=kernel, lu_path_observed=lu_taken,
+               rule="dense/patterned: n <= 4, entries from the exact grids (Real/Log: 0, 1/4, 1/2, 1, 2, inf; Viterbi: -inf, -3..2, +inf; Bool), classes forcing spectral radius < 1 (row sums < 1 / negative weights), = 1 (row-stochastic, zero-weight cycles), > 1, infinite entries, zero rows, triangular; vector and matrix right-hand sides. multi: all 16 x 4 presence patterns of a 2-block system x transpose, sampled 3- and 4-block systems, block shapes (), (2,), (2,2), (3,), three key types, order recorded from the implementation; product/sum-typed patterns over index types 2x2 and 2x2x2 (rows (c,A,B) against columns (A,B,C) and variants, single-cell / single-row right-hand sides) for PatternedTensor.solve and as diagonal blocks of multi_solve, closure depth of the solution support recorded in closure_depth_histogram. non-trivial = dense: n >= 2 with a non-zero off-diagonal entry; multi: >= 2 present blocks; distinct by full case content",
+               samples=samples[:6], histogram=hist, closure_depth_histogram=depth_hist, kernel_reevaluated=kernel, lu_path_observed=lu_taken,
                order_model_set_iteration_assumption_held=order_sets_ok, phase_seconds=phase, job_seconds=JOB_SECONDS,
                open_items=OPEN_ITEMS)
     return cov, violations
@@ -693,7 +879,7 @@ def replay(path):
         c = dict(c); c["A"] = un(c["A"]); c["B"] = un(c["B"])
         if c["kind"] == "patterned":
             sp = dict(c["spec"])
-            for k in ("diag", "sub", "bsub"):
+            for k in ("diag", "sub", "bsub", "phys", "bphys"):
                 if k in sp: sp[k] = un(sp[k])
             c["spec"] = sp
         try:
@@ -706,6 +892,8 @@ def replay(path):
     c = dict(c)
     c["a"] = [((x, y), un(blk)) for (x, y), blk in c["a"]]
     c["b"] = [(x, un(v)) for x, v in c["b"]]
+    for sp in (c.get("apat") or {}).values(): sp["phys"] = un(sp["phys"])
+    for sp in (c.get("bpat") or {}).values(): sp["bphys"] = un(sp["bphys"])
     try:
         if c["kind"] == "multi":
             rr = run_multi_solve(c); code = run_coq(MSOLVE[CARRIER_OF[name]], [multi_solve_value(c, rr)], tag="replay")[0]
@@ -718,7 +906,7 @@ def replay(path):
 
 MANIFEST = dict(
     level="proof",
-    text="Coq theorems, generic over an abstract ordered star-semiring (law records as premises): recursive elimination of the unknowns in ANY order yields a solution of x = A x + b (from star-unfold alone) that is below every pre-solution (from star-induction); the in-place Gauss-Jordan loop of Semiring.solve_thunks (modelled statement by statement on lists, vector and matrix right-hand sides) computes the same vector; the partial sums of sum A^k b are below it, with equality at N = dim in bool; the block version over an abstract ordered star-semimodule (non-commutative coefficients) and its instance by N x N matrices with the dense solver on the diagonal blocks; RealSemiring's LU fast path agrees with the generic routine when its oracle returns the unique rational solution; multi_mv equals the dense product of the assembled blocks (also transposed); the model of _order_nonterminals returns a duplicate-free enumeration of the keys for every set-iteration order; the matrix star over a commutative ordered star-semiring: A* = A* A + 1 from the left laws alone, (A^T)* = (A*)^T, the least solution of X = X A + B is (solve (A^T) (B^T))^T = B . A* (C09_right_solve_least, C09_mul_star_least, C09_solve_transposed, C09_star_transpose); C09_multi_solve_refines: multi_solve_model (block LU over the PRESENT blocks with a[x,z] := a[x,z] a[z,z]* computed by the transposed solve, Schur updates, block back-substitution) computes, block by block, the block elimination belim instantiated with matrices, for every key set with shapes, every presence pattern (absent = zero: annihilation, solve of a zero matrix = identity), every duplicate-free elimination order and both transpose flags; hence the assembled result is the LEAST solution of x = A x + b of the assembled dense system and equals solve_model of it (verdict 13 of the multi check is impossible), also with the order computed by the model of _order_nonterminals (empty a: order [], result b); soundness/completeness of the executable oracles is_solution_b, series_le_b, cert_le_b, is_least_solution_b; Viterbi (finding F2, repaired in /repo commit d2ec7af): the former star (star(0)=inf) still yields a solution, a refutation witness for leastness, and leastness under the guard 'no pivot is exactly 0'. Tied to /repo by running model and implementation on the same exact-grid inputs (dense n <= 4, 4 semirings; block systems with every presence pattern of 2 blocks and sampled 3/4 blocks, transpose, recorded elimination order; PatternedTensor.solve on typed sparsity patterns) and judging every implementation output with the extracted oracles; arguments are byte-snapshotted.",
+    text="Coq theorems, generic over an abstract ordered star-semiring (law records as premises): recursive elimination of the unknowns in ANY order yields a solution of x = A x + b (from star-unfold alone) that is below every pre-solution (from star-induction); the in-place Gauss-Jordan loop of Semiring.solve_thunks (modelled statement by statement on lists, vector and matrix right-hand sides) computes the same vector; the partial sums of sum A^k b are below it, with equality at N = dim in bool; the block version over an abstract ordered star-semimodule (non-commutative coefficients) and its instance by N x N matrices with the dense solver on the diagonal blocks; RealSemiring's LU fast path agrees with the generic routine when its oracle returns the unique rational solution; multi_mv equals the dense product of the assembled blocks (also transposed); the model of _order_nonterminals returns a duplicate-free enumeration of the keys for every set-iteration order; the matrix star over a commutative ordered star-semiring: A* = A* A + 1 from the left laws alone, (A^T)* = (A*)^T, the least solution of X = X A + B is (solve (A^T) (B^T))^T = B . A* (C09_right_solve_least, C09_mul_star_least, C09_solve_transposed, C09_star_transpose); C09_multi_solve_refines: multi_solve_model (block LU over the PRESENT blocks with a[x,z] := a[x,z] a[z,z]* computed by the transposed solve, Schur updates, block back-substitution) computes, block by block, the block elimination belim instantiated with matrices, for every key set with shapes, every presence pattern (absent = zero: annihilation, solve of a zero matrix = identity), every duplicate-free elimination order and both transpose flags; hence the assembled result is the LEAST solution of x = A x + b of the assembled dense system and equals solve_model of it (verdict 13 of the multi check is impossible), also with the order computed by the model of _order_nonterminals (empty a: order [], result b); soundness/completeness of the executable oracles is_solution_b, series_le_b, cert_le_b, is_least_solution_b; Viterbi (finding F2, repaired in /repo commit d2ec7af): the former star (star(0)=inf) still yields a solution, a refutation witness for leastness, and leastness under the guard 'no pivot is exactly 0'. Tied to /repo by running model and implementation on the same exact-grid inputs (dense n <= 4, 4 semirings; block systems with every presence pattern of 2 blocks and sampled 3/4 blocks, transpose, recorded elimination order; PatternedTensor.solve on typed sparsity patterns, incl. product/sum-typed shift patterns whose solution support needs several closure steps, also as diagonal blocks of multi_solve) and judging every implementation output with the extracted oracles; arguments are byte-snapshotted.",
     note="Trusted: Coq kernel + vm_compute, extraction cross-checked in the kernel on a sample and on every non-zero verdict, the Python harness (float <-> rational conversion, math.log/exp for the Log reading, 1e-9 tolerance), semiring law records of the carriers (premises of the generic theorems; proved under C08 and discharged in the _bool/_real/_viterbi instances). Open: PatternedTensor.solve's axis iteration (tier B). The refinement of multi_solve_model to the block elimination is proved (C09_multi_solve_refines*); the run-time comparison with the dense model (verdict 13) is kept as a redundant cross-check. F2 (Viterbi star at 0) was repaired in /repo commit d2ec7af; a regression shows as 'not the least solution'. Known findings: F18 (PatternedTensor.solve AssertionError on disjoint support), F21 (new: Real/Log return huge finite numbers for divergent systems whose pivots are not float-exact).",
     technique="Coq proof (model + theorems) + model/implementation correspondence with verified-spec oracles",
     design_ref="DESIGN.md section 6, C09; Appendix A.5, A.7; Appendix C (C09)")
